@@ -36,6 +36,7 @@ import (
 
 type Reader struct {
 	reader    io.Reader
+	adapter   contractReader
 	buffer    []byte
 	bytesRead uint64
 	config    *configuration.Configuration
@@ -53,8 +54,45 @@ func (_this *Reader) Init(config *configuration.Configuration) {
 }
 
 func (_this *Reader) SetReader(reader io.Reader) {
-	_this.reader = reader
+	_this.adapter.reader = reader
+	_this.adapter.err = nil
+	_this.reader = &_this.adapter
 	_this.bytesRead = 0
+}
+
+// contractReader adapts any io.Reader to the behaviour the decoding functions
+// (here and in the uleb128 / compact float / compact time packages) rely on:
+// a call either returns at least one byte and no error, or no bytes and an
+// error. io.Reader also permits returning data together with an error (for
+// example the last bytes together with io.EOF) and returning (0, nil).
+type contractReader struct {
+	reader io.Reader
+	err    error
+}
+
+const maxConsecutiveEmptyReads = 100
+
+func (_this *contractReader) Read(p []byte) (int, error) {
+	if _this.err != nil {
+		return 0, _this.err
+	}
+	if len(p) == 0 {
+		return 0, nil
+	}
+	for i := 0; i < maxConsecutiveEmptyReads; i++ {
+		n, err := _this.reader.Read(p)
+		if n > 0 {
+			// Hand out the data now and the error (if any) on the next call.
+			_this.err = err
+			return n, nil
+		}
+		if err != nil {
+			_this.err = err
+			return 0, err
+		}
+	}
+	_this.err = io.ErrNoProgress
+	return 0, io.ErrNoProgress
 }
 
 func (_this *Reader) ReadUint8() uint8 {
